@@ -111,3 +111,20 @@ func PStr(x string) int { return w(-1) }
 
 //go:noinline
 func PBool(x bool) int { return w(-1) }
+
+// integer parameters of several kinds: conditions are usually written as plain constants (type int)
+//
+//go:noinline
+func PI64(x int64) int { return w(-1) }
+
+//go:noinline
+func PU64(x uint64) int { return w(-1) }
+
+//go:noinline
+func PUint(x uint) int { return w(-1) }
+
+//go:noinline
+func PUptr(x uintptr) int { return w(-1) }
+
+//go:noinline
+func PI32(x int32) int { return w(-1) }
